@@ -361,9 +361,13 @@ def _context_manager_pair(model, ws):
     return None
 
 
-def rule_override(ctx, rep, by_loc):
+def rule_override(ctx, rep, by_loc=None, RULE='D-OVERRIDE'):
     model = ctx.model
-    rep.rule('D-OVERRIDE', 'override of global state is restored on every path, exceptional ones included')
+    rep.rule(RULE, 'override of global state is restored on every path, exceptional ones included')
+    if by_loc is None:
+        by_loc = {}
+        for w in inventory(model):
+            by_loc.setdefault(w.location, []).append(w)
     n = 0
     for l, (disc, _) in CLASSIFICATION.items():
         if disc != 'D-OVERRIDE':
@@ -380,11 +384,11 @@ def rule_override(ctx, rep, by_loc):
         cm = _context_manager_pair(model, ws)
         if cm is not None:
             klass, uses_ok, why = cm
-            rep.instance('D-OVERRIDE')
+            rep.instance(RULE)
             n += 1
-            rep.obligation('D-OVERRIDE', uses_ok, {'location': l, 'context manager': klass.short, 'why': why})
+            rep.obligation(RULE, uses_ok, {'location': l, 'context manager': klass.short, 'why': why})
             if not uses_ok:
-                rep.find('D-OVERRIDE', klass.short, l, '%s overrides %s in __enter__ and restores it in __exit__, but %s'
+                rep.find(RULE, klass.short, l, '%s overrides %s in __enter__ and restores it in __exit__, but %s'
                          % (klass.short, l, why), loc(model.unit_of(klass), klass.node))
             for q in list(by_fn):
                 if by_fn[q][0].fi.cls is klass and by_fn[q][0].fi.name in ('__enter__', '__exit__'):
@@ -392,25 +396,25 @@ def rule_override(ctx, rep, by_loc):
         for q, fws in by_fn.items():
             fi = fws[0].fi
             fws.sort(key=lambda w: (w.node.lineno, w.node.col_offset))
-            rep.instance('D-OVERRIDE')
+            rep.instance(RULE)
             if len(fws) < 2:
                 n += 1
-                rep.obligation('D-OVERRIDE', False, {'location': l, 'function': fi.short, 'writes': 1})
-                rep.find('D-OVERRIDE', fi.short, l, '%s overrides %s and never restores it' % (fi.short, l),
+                rep.obligation(RULE, False, {'location': l, 'function': fi.short, 'writes': 1})
+                rep.find(RULE, fi.short, l, '%s overrides %s and never restores it' % (fi.short, l),
                          loc(model.unit_of(fi), fws[0].node))
                 continue
             restore = fws[-1]
             for w in fws[:-1]:
                 n += 1
                 ok, why = restore_protects(fi, w, restore)
-                rep.obligation('D-OVERRIDE', ok, {'location': l, 'function': fi.short,
+                rep.obligation(RULE, ok, {'location': l, 'function': fi.short,
                                                  'override': ast.unparse(stmt_of(w.node)).split('\n')[0],
                                                  'restore': ast.unparse(stmt_of(restore.node)).split('\n')[0], 'why': why})
                 if not ok:
-                    rep.find('D-OVERRIDE', fi.short, l,
+                    rep.find(RULE, fi.short, l,
                              '%s: %s - after an exception the override of %s stays in force for the rest of the process'
                              % (fi.short, why, l), loc(model.unit_of(fi), w.node))
-    rep.floor('D-OVERRIDE', n, 1)
+    rep.floor(RULE, n, 1)
 
 
 def rule_entry_rewrite(ctx, rep, by_loc):
